@@ -47,7 +47,7 @@ POOL = {
     "fn": ["ann", "anne", "bob", "cat", None],
     "sn": ["smith", "smyth", "jones", "jonas", None],
     "dob": ["1990", "1985", "2001", None],
-    "city": ["leeds", "york", None],
+    "city": ["leeds", "leedz", "york", "yorks", None],
 }
 RULES = [("fn",), ("sn", "dob"), ("city", "fn"), ("dob",), "substr"]
 NAME_POOLS = [
@@ -78,7 +78,7 @@ def gen_scenario(rng):
     em_col = rng.choice(["fn", "dob"])
     return {"link_type": lt, "names": ["ta", "tb", "tc"][:ntab], "tables": tables, "rules": rules,
             "train": rng.random() < 0.6, "em_col": em_col, "em_fix_lambda": rng.random() < 0.4, "threshold": rng.choice([0.3, 0.5, 0.9]),
-            "tf": rng.random() < 0.7}
+            "tf": rng.random() < 0.7, "tf_fuzzy": rng.random() < 0.5}
 
 
 def rule_sql(rule, cm):
@@ -99,7 +99,7 @@ def gen_presentation(rng, sc, identity=False):
     torder = list(range(len(sc["tables"])))
     rng.shuffle(torder)
     return {
-        "colmap": rng.choice(NAME_POOLS), "uid": rng.choice(["ident", "affine", "padded_string", "ident"]),
+        "colmap": rng.choice(NAME_POOLS), "uid": rng.choice(["ident", "affine", "padded_string", "reverse", "ident"]),
         "uid_name": rng.choice(["unique_id", "ID", "record id"]),
         "row_seed": rng.randint(0, 10**6), "table_order": torder, "rule_order": order,
         "salting": {k: rng.choice([2, 3, 7]) for k in range(n) if rng.random() < 0.3},
@@ -120,6 +120,8 @@ def uid_map(kind, i):
         return 3 * i + 7
     if kind == "padded_string":
         return f"id{i:04d}"
+    if kind == "reverse":  # order-reversing: every pair is evaluated in the other orientation
+        return 1000 - i
     return i
 
 
@@ -168,7 +170,20 @@ def run_pipeline(sc, p):
     fn = cl.ExactMatch(cm["fn"])
     if sc["tf"]:
         fn = fn.configure(term_frequency_adjustments=True)
-    comps = [fn, cl.LevenshteinAtThresholds(cm["sn"], [1, 2]), cl.ExactMatch(cm["dob"]), cl.ExactMatch(cm["city"])]
+    city = cl.ExactMatch(cm["city"])
+    if sc.get("tf_fuzzy"):
+        # a fuzzy level with a term-frequency adjustment and a minimum-u floor: the two records
+        # of a pair can carry different term frequencies, so the score must not depend on which
+        # of them is "l" (ids are relabelled / retyped / re-ordered by the presentations)
+        import splink.comparison_level_library as cll
+        city = cl.CustomComparison(
+            output_column_name=cm["city"].replace(" ", "_"),
+            comparison_levels=[
+                cll.NullLevel(cm["city"]),
+                cll.ExactMatchLevel(cm["city"]).configure(tf_adjustment_column=cm["city"], tf_minimum_u_value=0.1),
+                cll.LevenshteinLevel(cm["city"], 2).configure(tf_adjustment_column=cm["city"], tf_minimum_u_value=0.05, tf_adjustment_weight=1.0),
+                cll.ElseLevel()])
+    comps = [fn, cl.LevenshteinAtThresholds(cm["sn"], [1, 2]), cl.ExactMatch(cm["dob"]), city]
     s = SettingsCreator(link_type=sc["link_type"], unique_id_column_name=uidn, comparisons=comps,
                         blocking_rules_to_generate_predictions=rules, probability_two_random_records_match=0.05,
                         retain_intermediate_calculation_columns=False)
